@@ -64,6 +64,10 @@ def render(t: Ty) -> str:
         return "tuple[%s]" % ", ".join(render(i) for i in t[1]) if t[1] else "tuple[()]"
     if k == "vtuple":
         return "tuple[%s, ...]" % render(t[1])
+    if k == "vartup":  # ("vartup", prefix items, element, suffix items)
+        if not t[1] and not t[3]:
+            return "tuple[%s, ...]" % render(t[2])
+        return "tuple[%s]" % ", ".join([render(i) for i in t[1]] + ["*tuple[%s, ...]" % render(t[2])] + [render(i) for i in t[3]])
     if k == "box":
         return "Box[%s]" % render(t[1])
     if k == "type":
@@ -177,6 +181,7 @@ class Program:
     labels: dict
     iaf: bool
     seed: int = 0
+    edits: list = field(default_factory=list)   # prepared single-line edits: {"kind", "old", "new", "detail"}
 
 
 # --------------------------------------------------------------------------- fixed, vetted library
@@ -337,6 +342,41 @@ class Vec:
     def __iter__(self) -> Iterator[int]:
         yield self.x
         yield self.y
+
+'''
+
+PRELUDE += '''
+class Money:
+    def __init__(self, cents: int) -> None:
+        self.cents = cents
+
+    def __iadd__(self, k: int) -> "Money":
+        return Money(self.cents + k)
+
+    def __isub__(self, k: int) -> "Money | int":
+        return self.cents - k if k > self.cents else Money(self.cents - k)
+
+    def __ior__(self, o: "Money") -> "Money":
+        return Money(self.cents | o.cents)
+
+    def __imul__(self, k: int) -> "Money":
+        return Money(self.cents * k)
+
+    def __add__(self, k: int) -> "Money":
+        return Money(self.cents + k)
+
+    def __radd__(self, k: int) -> "Money":
+        return Money(self.cents + k)
+
+
+class Wallet(Money):
+    def owner(self) -> str:
+        return "me"
+
+
+class Purse(Money):
+    def clasp(self) -> int:
+        return 1
 
 '''
 
@@ -1674,6 +1714,8 @@ class StmtGen(CondGen):
                 table += [(self.s_nested, 2), (self.s_closure_shape, 2)]
             if self.cfg.on("try"):
                 table += [(self.s_nested_try_shape, 2)]
+            if self.cfg.on("ops"):
+                table += [(self.s_inplace_shape, 2)]
         tot = sum(wt for _, wt in table)
         x = r.random() * tot
         for fn, wt in table:
@@ -2695,6 +2737,165 @@ class FullGen(StmtGen):
         self.emit(self.probe("%s()" % cname, env, form="closure-result-after-reassign"))
         self.emit(self.probe(v.name, env, v))
 
+    # ---- (D) in-place operators whose result is wider than the receiver ---------------------------------
+    def s_inplace_shape(self, env: Env, depth: int) -> None:
+        """Accepted uses of Money.__iadd__/__isub__/__ior__/__imul__/__radd__ (results Money / Money | int, receivers may
+        be Wallet/Purse), plus SLOT lines inside narrowed regions that a prepared edit turns into `x op= y` (ill-typed
+        neighbour: the result no longer fits the narrowed type, and a use valid only for the narrowed type follows)."""
+        r = self.rnd
+        if not hasattr(self, "edits"):
+            self.edits = []
+        self.lab("shape:inplace")
+        mk = lambda: r.choice(["Wallet(%s)", "Money(%s)", "Purse(%s)", "Wallet(%s)"]) % r.choice(["1", "3", "8"])
+        variant = r.choice(["declared", "radd-fallback", "slot-isinstance", "slot-isinstance", "slot-assign-union"])
+        self.lab("shape:inplace:" + variant)
+        if variant == "declared":
+            n = self.fresh("mv")
+            self.emit("%s: Money = %s" % (n, mk()))
+            self.emit("%s %s" % (n, r.choice(["+= %s" % self.e(INT, env, 1), "|= Money(2)", "*= 2", "+= 1"])))
+            self.emit(self.probe(n, env, form="after-inplace-op"))
+            self.emit(self.probe("%s.cents" % n, env, form="use:after-inplace-op"))
+        elif variant == "radd-fallback":
+            n = self.fresh("uv")
+            self.emit("%s: int | Money | None = None" % n)
+            self.emit("%s = %s" % (n, r.choice(["3", "0", "7"])))
+            self.emit("%s += Money(2)" % n)
+            self.emit(self.probe(n, env, form="after-radd-fallback"))
+            self.emit(self.probe("%s.cents" % n, env, form="use:after-radd-fallback"))
+        elif variant == "slot-isinstance":
+            n = self.fresh("mv")
+            sub, use = r.choice([("Wallet", "owner()"), ("Purse", "clasp()")])
+            self.emit("%s: Money = %s" % (n, mk()))
+            self.emit("if isinstance(%s, %s):" % (n, sub))
+            ye = env.clone()
+            self.enter(ye, "isinstance+")
+            self.ind += 1
+            self.emit(self.probe(n, ye, form="isinstance+"))
+            slot = self.probe("%s.cents" % n, ye, form="inplace-slot")
+            self.emit(slot)
+            op = r.choice(["+= 5", "-= 1", "|= Money(1)", "*= 2"])
+            self.edits.append({"kind": "inplace-op-on-narrowed", "old": slot, "new": "%s %s" % (n, op), "detail": "inside `isinstance(%s, %s)`: `%s %s` inserted before `%s.%s` (Money's in-place operators return Money / Money | int)" % (n, sub, n, op, n, use)})
+            self.emit(self.probe("%s.%s" % (n, use), ye, form="use:isinstance+"))
+            self.ind -= 1
+        else:
+            n = self.fresh("uv")
+            self.emit("%s: int | Money | None = None" % n)
+            self.emit("%s = Money(3)" % n)
+            slot = self.probe(n, env, form="inplace-slot")
+            self.emit(slot)
+            self.edits.append({"kind": "inplace-op-on-narrowed", "old": slot, "new": "%s -= 10" % n, "detail": "`%s: int | Money | None` narrowed to Money by assignment: `%s -= 10` (Money.__isub__ -> Money | int) inserted before `%s.cents`" % (n, n, n)})
+            self.emit(self.probe("%s.cents" % n, env, form="use:assign"))
+
+    # ---- (C) sequence patterns against variadic tuples -----------------------------------------------------
+    VT_ATOMS = {"int": ["1", "0", "7"], "str": ['"a"', '""', '"xy"'], "bytes": ['b"x"', 'b""'], "bool": ["True", "False"]}
+
+    def vt_function(self, idx: int) -> list:
+        """A function matching a variadic-tuple parameter against star patterns with k non-star sub-patterns for k around
+        the number of fixed items, followed by shorter arms and `case _`, all with probes.  -> driver call texts that
+        pass tuples of every small length."""
+        r = self.rnd
+        pool = [INT, STR, BYTES, BOOL]
+        prefix = [r.choice(pool) for _ in range(r.choice([0, 1, 1, 2]))]
+        suffix = [r.choice(pool) for _ in range(r.choice([0, 0, 1]))]
+        elem = r.choice(pool)
+        t = ("vartup", tuple(prefix), elem, tuple(suffix))
+        fixed = len(prefix) + len(suffix)
+        name = "vt%d" % idx
+        self.lab("shape:vartuple_match")
+        self.lab("shape:vartuple_prefix%d_suffix%d" % (len(prefix), len(suffix)))
+        self.emit("def %s(x: %s, flag: bool) -> int:" % (name, render(t)))
+        env = Env(INT, 0, None)
+        self.enter(env, "function")
+        xv = env.add(Var("x", t, frozen=True))
+        self.ind += 1
+        self.emit(self.probe("x", env, xv))
+        self.emit("match x:")
+        self.ind += 1
+
+        kinds_here = sorted({m[0] for m in prefix + suffix + [elem]})
+        lits = {"int": "1", "str": '"a"', "bytes": 'b"x"', "bool": "True"}
+
+        def subpattern(cap: str, kind: str | None = None) -> str:
+            # refutable sub-patterns only test for the class / a literal of the item type at their position (an arm mypy
+            # can prove impossible makes every capture in it an error, i.e. a rejected program)
+            c = r.random()
+            kind = kind or r.choice(kinds_here)
+            if c < 0.6:
+                return cap
+            if c < 0.8:
+                return "%s() as %s" % (kind, cap)
+            if c < 0.9:
+                return lits[kind]
+            return "_"
+
+        def kind_at(i: int, n_before: int, n_after: int) -> str:
+            """item type at pattern position i of n_before + [star] + n_after (as mypy lines them up)"""
+            if i < n_before:
+                return (prefix[i] if i < len(prefix) else elem)[0]
+            j = n_before + n_after - 1 - i  # distance from the end
+            return (suffix[len(suffix) - 1 - j] if j < len(suffix) else elem)[0]
+
+        def arm(pat: str, caps: list, form: str, guard: bool) -> None:
+            ce = env.clone()
+            ce.ctx = ("match",)
+            self.enter(ce, form)
+            self.emit("case %s%s:" % (pat, " if flag" if guard else ""))
+            self.ind += 1
+            for c in caps:
+                if ("as " + c) in pat or ("*" + c) in pat or c in [q.strip() for q in pat.strip("()[]").split(",")]:
+                    self.emit(self.probe(c, ce, form="match-capture"))
+            cx = ce.vars["x"]
+            cx.form = form
+            self.emit(self.probe("x", ce, cx))
+            if r.random() < 0.5:
+                self.emit(self.probe("len(x)", ce, form="use:" + form))
+            self.ind -= 1
+
+        ks = sorted({k for k in (fixed - 1, fixed, fixed + 1, fixed + 2) if k >= 0})
+        for k in r.sample(ks, min(len(ks), r.choice([1, 2, 2]))):
+            before = r.randint(0, k)
+            np_, ns_ = len(prefix), len(suffix)
+            if k <= fixed and (before > np_ or k - before > ns_):
+                # fenced off: mypy lines pattern items up with the ITEMS of the tuple type, the `*tuple[X, ...]` item
+                # counting as one; a star pattern no longer than the fixed part that does not line up with prefix/suffix
+                # kills mypy (AssertionError in find_unpack_in_list: two unpacks in one tuple type) ...
+                self.lab("excluded:vartuple-star-pattern-misaligned(mypy-crash)")
+                before = r.randint(max(0, k - ns_), min(np_, k))
+            elif k > fixed and (before < np_ or k - before < ns_):
+                # ... and a longer one that leaves fixed items of one side to the star is skipped as unreachable although
+                # it matches at run time (known finding, witness replay kept)
+                self.lab("excluded:vartuple-star-pattern-misaligned(unreachable)")
+                before = r.randint(np_, k - ns_)
+            after = k - before
+            caps = [self.fresh("k") for _ in range(k)]
+            rest = self.fresh("k")
+            star = "*" + rest if r.random() < 0.8 else "*_"
+            items = [subpattern(c, kind_at(i, before, after)) for i, c in enumerate(caps[:before])] + [star] + [subpattern(c, kind_at(before + i, before, after)) for i, c in enumerate(caps[before:])]
+            pat = "(%s)" % "".join(i + ", " for i in items) if r.random() < 0.6 else "[%s]" % ", ".join(items)
+            self.lab("shape:vartuple_star_arm_k=fixed%+d" % (k - fixed))
+            arm(pat, caps + [rest], "match-vartuple-star", r.random() < 0.2)
+        for n in r.sample([0, 1, 2, 3], r.choice([0, 1, 2])):
+            caps = [self.fresh("k") for _ in range(n)]
+            if n < fixed:
+                continue  # a tuple of this type is never that short
+            kinds_n = [p_[0] for p_ in prefix] + [elem[0]] * (n - fixed) + [q_[0] for q_ in suffix]
+            pat = "(%s)" % "".join(subpattern(c, kinds_n[i]) + ", " for i, c in enumerate(caps))
+            arm(pat, caps, "match-vartuple-fixed-length", False)
+        if r.random() < 0.85:
+            arm("_", [], "match-rest", False)
+        self.ind -= 1
+        self.emit(self.probe("x", env, xv, form="merge-match"))
+        self.emit("return len(x)")
+        self.ind -= 1
+        self.emit("")
+        self.emit("")
+        calls = []
+        at = lambda ty: r.choice(self.VT_ATOMS[ty[0]])
+        for extra in range(0, 4):
+            items = [at(p) for p in prefix] + [at(elem) for _ in range(extra)] + [at(q) for q in suffix]
+            calls.append("%s((%s), %s)" % (name, "".join(i + ", " for i in items), r.choice(["True", "False"])))
+        return calls
+
     # ---- nested functions
     def s_nested(self, env: Env, depth: int) -> None:
         r = self.rnd
@@ -2894,7 +3095,20 @@ class FullGen(StmtGen):
                 sig.kwonly = r.randint(1, max(1, len(params) - 1)) if len(params) > 1 else 0
             self.function("f%d" % i, sig, i, None)
             w.funcs.append(("f%d" % i, sig, i))
+        vt_drivers = []
+        if cfg.on("match") and r.random() < 0.6:
+            for i in range(r.choice([1, 1, 2])):
+                vt_drivers += self.vt_function(i)
         drivers = self.drivers()
+        for call in vt_drivers:
+            dn = "drv_v%d" % len(drivers)
+            self.emit("def %s() -> None:" % dn)
+            e0 = Env(NONE, 0, None)
+            e0.ctx = ("driver",)
+            self.emit("    " + self.probe(call, e0, form="driver-result"))
+            self.emit("")
+            self.emit("")
+            drivers.append(dn)
         for name, sig, tv in gfuncs:
             subs = [c for c in w.subclasses(tv[2][1]) if w.classes[c].flavor != "mixin"]
             for c in subs[:3]:
@@ -2924,7 +3138,7 @@ class FullGen(StmtGen):
             self.lab("excluded:literal-inside-tuple", w.excluded_lit_tuples)
         self.lab("probes", len(self.probes))
         self.lab("drivers", len(drivers))
-        return Program("\n".join(self.out) + "\n", self.probes, drivers, sigs, self.labels, cfg.iaf, seed)
+        return Program("\n".join(self.out) + "\n", self.probes, drivers, sigs, self.labels, cfg.iaf, seed, list(getattr(self, "edits", [])))
 
 
 def generate(seed: int, cfg: Cfg | None = None) -> Program:
@@ -2962,10 +3176,25 @@ def perturb(prog: Program, rnd: random.Random, k: int = 1) -> list:
     attrs = set(sigs.get("__attrs__", []))
     out = []
     kinds = ["wrong-arg", "wrong-kwarg", "wrong-kwarg", "swap-args", "drop-arg", "bad-attr", "remove-narrowing", "remove-narrowing", "widen-param"]
+    prepared = list(getattr(prog, "edits", None) or [])
+    rnd.shuffle(prepared)
+    if prepared:
+        kinds += ["prepared", "prepared", "prepared"]
     tries = 0
     while len(out) < k and tries < 6 * k:
         tries += 1
         kind = rnd.choice(kinds)
+        if kind == "prepared":
+            if not prepared:
+                continue
+            ed = prepared.pop()
+            lines = prog.text.split("\n")
+            hit = [i for i, l in enumerate(lines) if l.strip() == ed["old"]]
+            if len(hit) != 1:
+                continue
+            lines[hit[0]] = lines[hit[0]][: len(lines[hit[0]]) - len(lines[hit[0]].lstrip())] + ed["new"]
+            out.append({"kind": ed["kind"], "detail": ed["detail"], "text": "\n".join(lines)})
+            continue
         tree = ast.parse(prog.text)
         # skip the fixed library: edits only in generated code (after class Vec)
         start = next((n.end_lineno or 0 for n in tree.body if isinstance(n, ast.ClassDef) and n.name == "Vec"), 0)
